@@ -24,7 +24,7 @@ def run(tier, seed, replay=None):
             for cfg in ("MC_tarjan3.cfg", "MC_kahn3.cfg", "MC_tarjan4.cfg", "MC_kahn4.cfg"):
                 ck.mc(DIR, "SccAlgs", cfg, timeout=14400)
         cases = [drv.gen(rng, nmax=4 if i % 4 == 0 else 8) for i in range(800 if tier == "quick" else 10000)]
-    res = run_tasks("scc", "run_scc", cases, timeout=60)
+    res = run_tasks("scc", "run_scc", cases, timeout=120)
     trs = []
     for r, c in zip(res, cases):
         if not isinstance(r, dict) or "events" not in r:
@@ -61,6 +61,5 @@ def run(tier, seed, replay=None):
         ck.control(f"corrupted trace rejected ({exp} -> {v['why']})", (not v["ok"]) and exp in v["why"], str(v))
     ck.rule = ("random digraphs with 1-8 listed nodes (+0-2 outside neighbours), duplicate edges, self loops, 35% DAG-shaped, shuffled "
                "node and neighbour orders, int/str/tuple labels; non-trivial = >= 2 edges; distinct by hash of the input")
-    ck.assumptions = ["neighbours outside the node list: SCC must cover a set between the listed nodes and their closure; topological_sort "
-                      "is checked on the in-set edges; condense only on closed neighbour functions"]
+    ck.assumptions = ["the graph is the one induced by the listed nodes (neighbours outside the node list are not nodes) for all three functions"]
     return ck.finish()
